@@ -3,7 +3,7 @@
 (*   text modes   after every call the lines written so far satisfy all clauses of P (RawLog!Clause, flush limit 64)      *)
 (*                - against the documented echo rule; a record that only fits the rule "repeat" (what the pinned code     *)
 (*                implements) gets its own class; anything else names the failing clause                                 *)
-(*                - the final lines are those of the S automaton (S fidelity; drift, not a verdict)                       *)
+(*                - the final lines are those of the S automaton, as built or with the echo flag (S fidelity)             *)
 (*   bytes modes  the lines spell every symbol of every call in order                                                     *)
 (* VF_FAMILY: all (complete domain) | replay                                                                             *)
 EXTENDS RawLogDomain, TLC, Json, IOUtils, SequencesExt
@@ -32,7 +32,7 @@ TextVerdict(r) ==
       doc == FirstBad(r, ev, 1, "once")
       built == FirstBad(r, ev, 1, "repeat")
   IN IF ~shape THEN <<"harness", 0>>
-     ELSE IF doc = OKV THEN (IF Run(ev, 64, FALSE).log # r.lines THEN <<"S-differs", 0>> ELSE OKV)
+     ELSE IF doc = OKV THEN (IF Run(ev, 64, FALSE).log # r.lines /\ Run(ev, 64, TRUE).log # r.lines THEN <<"S-differs", 0>> ELSE OKV)
      ELSE IF built = OKV THEN <<"R-echo-repeat", doc[2]>>
      ELSE <<"R-" \o built[1], built[2]>>
 
